@@ -11,6 +11,8 @@ import json, os, shutil, subprocess, sys, time, threading, queue, argparse
 ENV = dict(os.environ, GOFLAGS="", GOPROXY="off", GOSUMDB="off", GOTOOLCHAIN="local")
 PKGS = ["./combination/...", "./pot/...", "./regulator/...", "./settlement/...", "./testcases/..."]
 OUT = "/verif/tools/mutation"
+# the tree the mutant offsets of phaseA.json refer to (a scratch worktree of that commit when /repo has moved on)
+SRC = os.environ.get("MUT_SRC", "/repo")
 
 # file -> (function filter, checks in the order they are tried)
 PLAN = {
@@ -55,7 +57,7 @@ def sh(cmd, cwd=None, timeout=None, env=None):
 def scratch(k):
     d = f"/var/tmp/mw-{k}"
     shutil.rmtree(d, ignore_errors=True)
-    shutil.copytree("/repo", d, ignore=shutil.ignore_patterns(".git"))
+    shutil.copytree(SRC, d, ignore=shutil.ignore_patterns(".git"))
     return d
 
 
@@ -73,12 +75,12 @@ def gen():
 
 def apply(d, m):
     p = os.path.join(d, m["file"])
-    src = open(os.path.join("/repo", m["file"]), "rb").read()
+    src = open(os.path.join(SRC, m["file"]), "rb").read()
     open(p, "wb").write(src[:m["start"]] + m["repl"].encode() + src[m["end"]:])
 
 
 def restore(d, m):
-    shutil.copy(os.path.join("/repo", m["file"]), os.path.join(d, m["file"]))
+    shutil.copy(os.path.join(SRC, m["file"]), os.path.join(d, m["file"]))
 
 
 def phaseA(jobs):
